@@ -203,6 +203,10 @@ def run(tier: str) -> int:
     log(f"[C19] A accepted {len(events) - len(rejected)}/{len(events)} calls ({rendered} through both renderers, {realised} via real measurement lists), drift={drift}, {t.s()}s")
     if m.violated and not rejected:
         raise MachineryError(f"Percent.tla invariant {m.violated} violated but the code satisfies the property on every replayed profile: the model is wrong")
+    from .. import tlaps
+
+    lemmas = tlaps.prove("PercentProof", wd)
+    log(f"[C19] TLAPS PercentProof: {lemmas['discharged']}/{lemmas['obligations']} obligations ({lemmas['note']})")
     rc = rep.finish()
     evidence.write(
         PROP, tier, level="model_checking", wall_s=t.s(), violations=rep.n_violations,
@@ -212,6 +216,7 @@ def run(tier: str) -> int:
             "bounds": {"exhaustive_total_up_to": b["T"], "rendered_total_up_to": b["render_T"], "random_profiles": len(rnd), "random_total_up_to": 10**7},
             "model": {"module": "Percent.tla", "invariants": invs + ["MonotoneUnmaintainable"], "violated": [list(x) for x in m.violated], "actions": m.coverage},
             "acceptor": {"module": "PercentTrace.tla", "events": len(events), "rejected": len(rejected), "through_renderers": rendered, "via_real_measurements": realised},
+            "proved_lemmas": dict(lemmas, theorems=["SumIs100", "InRange", "NonZeroKept"], scope="post-processing of the rounded-up figures, for all naturals (unbounded)"),
             "model_drift": rep.drift, "model_drift_count": drift, "known_findings_hit": sorted(rep.known),
         },
         assumptions=["profiles are injected through report.quality_profile (as tests/common/report/test_Report.py does) unless realisable by measurement lists",
